@@ -424,6 +424,24 @@ pub fn units() -> Vec<Unit> {
             imports: vec!["RsVlq", "RsTypes", "RsHermes", "RsJsonTypes"],
         },
         Unit {
+            module: "RsDecodeCommon",
+            file: "decoder.rs",
+            fns: vec![
+                Item::Opaque("RawSection"),
+                Item::Opaque("SourceMap"),
+                Item::Opaque("SourceMapIndex"),
+                Item::Opaque("SourceMapHermes"),
+                Item::Alias("FacebookSources", "Option<Vec<Option<Vec<FacebookScopeMapping>>>>"),
+                Item::Struct("RawSourceMap", &["sections", "x_facebook_sources"]),
+                Item::Enum("DecodedMap"),
+                Item::Extern("decode_index", "fn(RawSourceMap) -> Result<SourceMapIndex>"),
+                Item::Extern("decode_hermes", "fn(RawSourceMap) -> Result<SourceMapHermes>"),
+                Item::Extern("decode_regular", "fn(RawSourceMap) -> Result<SourceMap>"),
+                Item::Fn("decode_common"),
+            ],
+            imports: vec!["RsJsonTypes"],
+        },
+        Unit {
             module: "RsDetectCommon",
             file: "detector.rs",
             fns: vec![Item::Fn("is_sourcemap_common")],
